@@ -189,6 +189,27 @@ Theorem C06_count_pinf : forall (R : rcfType) (f : list Z) (an ad : Z), ~~ pis_z
 Proof. exact count_roots_oc_pinf. Qed.
 Print Assumptions C06_count_pinf.
 
+(* libpoly's OWN interval count (faithful repaired model of sturm_seqence_count_roots with its own
+   zero-skipping sign-change counter and max_changes cut-off, on its own Sturm sequence of a non-constant f):
+   the number of distinct real roots of f in J for all four open/closed combinations of the ends, whenever the
+   last member of the sequence does not vanish at the two ends (always the case for a square-free factor).
+   This discharges the premise of C06_count_end_rule_cond for the sequences libpoly actually builds. *)
+Theorem C06_libpoly_count_interval : forall (R : rcfType) (f : list Z) (J : ri_itv), (1 < size (PR R f))%N ->
+  (0 < qlo_d J)%R -> (0 < qhi_d J)%R -> QR R (qlo_n J) (qlo_d J) < QR R (qhi_n J) (qhi_d J) ->
+  psgn_at_rat (last [::] (lp_sturm_sequence f)) (qlo_n J) (qlo_d J) != 0 ->
+  psgn_at_rat (last [::] (lp_sturm_sequence f)) (qhi_n J) (qhi_d J) != 0 ->
+  lp_count_roots_gen true (lp_sturm_sequence f) (Some J) = Z.of_nat (count (@in_qitv R J) (rootsR (PR R f))).
+Proof. exact lp_count_roots_sturm. Qed.
+Print Assumptions C06_libpoly_count_interval.
+
+Theorem C06_libpoly_count_interval_nonroot_ends : forall (R : rcfType) (f : list Z) (J : ri_itv),
+  (1 < size (PR R f))%N ->
+  (0 < qlo_d J)%R -> (0 < qhi_d J)%R -> QR R (qlo_n J) (qlo_d J) < QR R (qhi_n J) (qhi_d J) ->
+  psgn_at_rat f (qlo_n J) (qlo_d J) != 0 -> psgn_at_rat f (qhi_n J) (qhi_d J) != 0 ->
+  lp_count_roots_gen true (lp_sturm_sequence f) (Some J) = Z.of_nat (count (@in_qitv R J) (rootsR (PR R f))).
+Proof. exact lp_count_roots_sturm_nonroot. Qed.
+Print Assumptions C06_libpoly_count_interval_nonroot_ends.
+
 (* the reference square-free part: non-zero, its real roots are roots of p, and they are SIMPLE
    (gcd correctness lifted to R[x], exact division complete) *)
 Theorem C06_psqfree_simple_roots : forall (R : rcfType) (p : list Z), Poly p != 0 ->
